@@ -444,6 +444,16 @@ func (e *Engine) doOp(s *actorState, op Op, scripted bool) {
 	case "response":
 		id := e.resolveID(a, op.Arg)
 		exp := id != "" && id == a.CurReqID
+		if _, ok := op.Hdr["__bad-mode-when-illegal"]; ok {
+			// a submission the runtime knows to be out of turn additionally carries an unknown response mode: the
+			// refusal must be the one for the state (or the id), and nothing may reach the invoker
+			hdr := map[string]string{}
+			if !exp {
+				hdr["Lambda-Runtime-Function-Response-Mode"] = "chunked"
+				e.r.Fault("illegal-submission-with-unknown-mode")
+			}
+			op.Hdr = hdr
+		}
 		c := a.Response(id, e.respBody(s, op), op.Hdr)
 		c.ExpectAccept, c.Judged = exp, true
 	case "response-race":
@@ -482,6 +492,27 @@ func (e *Engine) doOp(s *actorState, op Op, scripted bool) {
 		e.r.Settle() // the duplicate runs until it is answered or held
 		e.r.Fault("concurrent-duplicate-submission")
 		a.ResponseWith(side, id, body, op.Hdr)
+	case "upload-then-next":
+		// the runtime starts uploading its /response for the in-flight id on a second connection, pauses half-way
+		// through the announced body and, while paused, polls /next on its main connection (a runtime with a
+		// background uploader). Nothing of the response has reached the caller yet: the poll must not complete the
+		// invocation
+		id := a.CurReqID
+		body := e.respBody(s, op)
+		if len(body) < 4 {
+			body = append(body, []byte("-padding-for-a-slow-body")...)
+		}
+		e.r.NextStep()
+		conn := e.r.Dial(RapiAddr)
+		a.P.Attach(conn)
+		side := conn.StartPlan(a.Who+"+", "POST", rtBase+"/invocation/"+id+"/response", op.Hdr, body, len(body)/2)
+		side.Tag = "rt-response-dup"
+		a.SideCalls = append(a.SideCalls, side)
+		s.stalledSide = side
+		e.r.Settle()
+		e.r.Fault("slow-body-submission")
+		e.r.Fault("poll-during-upload")
+		a.Next()
 	case "resume-side":
 		if s.stalledSide != nil {
 			e.r.NextStep()
